@@ -203,6 +203,18 @@ ROUND7 = {
  "C19": "One to three patterns in the exclude list of the CLI tier (a resource matched by a later pattern only).",
  "C20": "The same HCL files evaluated 24 times under names that share one base name in several directories.",
 }
+ROUND8 = {
+ "C02": "The differs of drivers opened against MySQL 8 / 5.7 / MariaDB / TiDB (null relations and every single edit; servers without CHECK support get the base without checks).",
+ "C03": "A quarter of the column references inside generated-column and index expressions are written [name].",
+ "C04": "Random graphs also through drivers opened against PostgreSQL 15 and CockroachDB.",
+ "C06": "Sub-check diff-in-foreign-layout: migrate diff on golang-migrate / flyway / goose / dbmate / atlas directories, the layout named by the URL, the project file or --dir-format; the directory must validate in its own layout afterwards and a second diff finds nothing.",
+ "C07": "Injection site check-raw: expressions whose operators are made of comment / quote characters outside quotes (#>>, #, ->, ^).",
+ "C11": "Files holding comments only; every file a successful apply went through must be recorded as applied.",
+ "C16": "Plans through drivers opened against CockroachDB / PostgreSQL 15 / 10 (enumerated for every third edit, sampled).",
+ "C18": "Mixed-case table Users in the initial schema.",
+ "C19": "Current databases also created from hand-written DDL (lower-case constraint keyword, bare / double-quoted names, parent spelled in another case); the names a pattern must remove are those of the database, not of Atlas' own inspection (one defect repaired).",
+ "C20": "Sub-check plan-twice-edit-pairs: a dropped indexed column next to every other index / foreign-key change of the table, planned twice from the same change objects.",
+}
 
 PENDING_REASON = "check not built yet in this session (planned in DESIGN.md section 4; will be claimed once its quick check is green and sensitivity-tested)"
 
@@ -240,6 +252,8 @@ def main():
                 text = text + " Added after the sixth round: " + ROUND6[pid]
             if pid in ROUND7:
                 text = text + " Added after the seventh round: " + ROUND7[pid]
+            if pid in ROUND8:
+                text = text + " Added after the eighth round: " + ROUND8[pid]
             m["checks"].append({
               "property_id": pid,
               "quick_cmd": "./check %s quick" % pid,
